@@ -1,8 +1,61 @@
 package main
 
-import "fmt"
+import (
+	"fmt"
+	"path/filepath"
+	"sort"
+	"strings"
 
+	"golang.org/x/tools/go/ssa"
+)
+
+// selftest: the translator's own test. Concrete computations through real repository code (harness
+// selftest_harness.go, functions Verif_Self_*), each compared with a string that the compiled code produced:
+// the interpreter must reach the same result (no violation, exactly one path, no unsupported construct),
+// and the native run of the same function must confirm that the expected string is still what the real
+// build computes.
 func cmdSelftest(args []string) int {
-	fmt.Println("selftest: not implemented yet")
+	u := Unit{Pkg: "./marshal/factory", Harness: []string{"harness/selftest_harness.go"}}
+	ld, err := loadUnits([]Unit{u})
+	if err != nil {
+		fmt.Println("selftest: LOAD ERROR", err)
+		return 2
+	}
+	var entries []string
+	for name, m := range ld.pkgOf[u.Pkg].Members {
+		if _, ok := m.(*ssa.Function); ok && strings.HasPrefix(name, "Verif_Self_") {
+			entries = append(entries, name)
+		}
+	}
+	sort.Strings(entries)
+	bad := 0
+	for _, en := range entries {
+		fn := ld.pkgOf[u.Pkg].Func(en)
+		res := runEntry(ld.prog, fn, runOpts{Workers: 1, MaxPaths: 10, TimeoutMs: 10000, MaxWallS: 120})
+		ex := res.ex
+		engineOK := ex.Paths == 1 && len(ex.Viol) == 0 && len(ex.Errors) == 0 && len(ex.Panics) == 0 && len(ex.InitFailures) == 0 && ex.Reached["end"] == 1
+		nativeFailed, out := replayNative(ld, u, en, Violation{Msg: "<selftest>"}, nil, filepath.Join(verifRoot, "out", "selftest", en))
+		nativeOK := !nativeFailed && strings.Contains(out, "ok") && !strings.Contains(out, "VERIF-ASSERT-FAILED") && !strings.Contains(out, "FAIL")
+		status := "agree"
+		if !engineOK || !nativeOK {
+			status = "DISAGREE"
+			bad++
+		}
+		fmt.Printf("selftest %-22s interpreter=%v native=%v  %s\n", en, engineOK, nativeOK, status)
+		if !engineOK {
+			fmt.Printf("   paths=%d violations=%d errors=%v panics=%v init=%v reached=%v\n", ex.Paths, len(ex.Viol), ex.Errors, ex.Panics, ex.InitFailures, ex.Reached)
+		}
+		if !nativeOK {
+			fmt.Println("   native output:", strings.TrimSpace(out))
+		}
+	}
+	if len(entries) == 0 {
+		fmt.Println("selftest: no Verif_Self_ functions found")
+		return 2
+	}
+	if bad > 0 {
+		return 1
+	}
+	fmt.Printf("selftest: %d computations, interpreter and compiled code agree\n", len(entries))
 	return 0
 }
